@@ -376,6 +376,10 @@ func firstField(s string) string {
 
 // RunSub executes a scenario in this (fresh) process and prints the result.
 func RunSub(name string) {
+	if strings.HasPrefix(name, "c17|") {
+		RunSubC17(name)
+		return
+	}
 	res := &subResult{}
 	expectReject := func(label string, t reflect.Type) {
 		for _, e := range []string{"encode", "decode", "size"} {
